@@ -16,7 +16,7 @@ import signal
 from types import SimpleNamespace
 from typing import List
 
-from engine.harness_api import Ob, setup, pick
+from engine.harness_api import Ob, setup, pick, ns
 setup(shim=False)
 
 import gunicorn.arbiter as A  # noqa: E402
@@ -90,15 +90,15 @@ def wire(arb, K, environ, paths):
         rec["exec"] = (f, list(args), dict(env))
         raise Exec()
     fos = A.os
-    ns = SimpleNamespace(fork=K.fork, kill=K.kill, waitpid=K.waitpid, getpid=K.getpid, getppid=K.getppid,
+    fake_os = SimpleNamespace(fork=K.fork, kill=K.kill, waitpid=K.waitpid, getpid=K.getpid, getppid=K.getppid,
                          write=K.write, read=K.read, WNOHANG=1, environ=environ, execvpe=execvpe,
                          chdir=lambda d: rec.__setitem__("chdir", d), close=lambda fd: None)
-    A.os = ns
+    A.os = fake_os
     saved_gs = GS.os
 
     def unlink(p):
         paths.discard(p)
-    GS.os = SimpleNamespace(unlink=unlink)
+    GS.os = ns("GS.os", unlink=unlink)
     A.sock = GS
 
     def undo2():
@@ -207,8 +207,8 @@ def start(upgraded: bool, fd1: int, fd2: int, pidfile: bool, ppid_is_old: bool) 
         adopted.append(None if fds is None else list(fds))
         return [Lsn("x", f) for f in (fds or [7])]
     undo, rec = wire(arb, K, environ, {SOCK})
-    A.sock = SimpleNamespace(create_sockets=create_sockets, close_sockets=lambda l, u=True: None)
-    A.systemd = SimpleNamespace(listen_fds=lambda: 0, sd_notify=lambda *a, **k: None, SD_LISTEN_FDS_START=3)
+    A.sock = ns("A.sock", create_sockets=create_sockets, close_sockets=lambda l, u=True: None)
+    A.systemd = ns("A.systemd", listen_fds=lambda: 0, sd_notify=lambda *a, **k: None, SD_LISTEN_FDS_START=3)
     saved_pf = A.Pidfile
     A.Pidfile = PidRec
     PidRec.log = []
